@@ -481,11 +481,49 @@ theorem walkable_prefix (t : Tree) (p q : List Seg) (h : Walkable t (p ++ q) = t
     | none => simp [hc] at h
     | some c => simp only [hc] at h; exact ih c h.2
 
+/-- `split_path_info('/') = ()`.  (Until 939e5de the traverser special-cased `vpath == '/'`; the model no longer
+mentions that shortcut.  The fact itself is kept because lemmas of other areas cite it.) -/
 theorem vpath_shortcut (vpath : Text) :
     (if vpath = ['/'] then [] else splitPathInfo vpath) = splitPathInfo vpath := by
   split
   · rename_i h; subst h; decide
   · rfl
+
+/-- the walk gets as far as the end of a prefix `vt` of the path exactly when `vt` can be walked -/
+theorem prefix_le_deepest_iff (root : Tree) (vt pt : List Seg) :
+    vt.length ≤ deepest root (vt ++ pt) ↔ Walkable root vt = true := by
+  have hw := walkable_take_deepest root (vt ++ pt)
+  constructor
+  · intro h
+    have e : (vt ++ pt).take (deepest root (vt ++ pt)) = vt ++ pt.take (deepest root (vt ++ pt) - vt.length) := by
+      rw [List.take_append]; simp [List.take_of_length_le h]
+    rw [e] at hw
+    exact walkable_prefix root vt _ hw
+  · intro h
+    exact deepest_max root (vt ++ pt) vt.length (by simp) (by simpa using h)
+
+/-- context and `traversed` of the spec are the consumed prefix, whether or not the path is exhausted -/
+theorem specOutcome_context (root : Tree) (vt pt sub0 : List Seg) :
+    (specOutcome root vt pt sub0).context = (vt ++ pt).take (deepest root (vt ++ pt)) ∧
+    (specOutcome root vt pt sub0).traversed = (vt ++ pt).take (deepest root (vt ++ pt)) := by
+  simp only [specOutcome]
+  split
+  · rename_i h
+    have : (vt ++ pt).length ≤ deepest root (vt ++ pt) := by simpa using h
+    simp [List.take_of_length_le this]
+  · exact ⟨rfl, rfl⟩
+
+/-- the traverser under a virtual-root header is the loop over `split(header) ++ split(path)` with
+`vroot_idx + 1 = len(split(header))` -/
+theorem traverseText_some (root : Tree) (v path : Text) (sub0 : List Seg) :
+    traverseText root (some v) path sub0 =
+      walkLoop (splitPathInfo v ++ splitPathInfo path) (splitPathInfo v) sub0 (splitPathInfo v).length
+        (splitPathInfo v ++ splitPathInfo path) 0 root [] := rfl
+
+/-- … and without one the loop over `split(path)` with `vroot_idx = -1` -/
+theorem traverseText_none (root : Tree) (path : Text) (sub0 : List Seg) :
+    traverseText root none path sub0 =
+      walkLoop (splitPathInfo path) [] sub0 0 (splitPathInfo path) 0 root [] := rfl
 
 /-- what the loop returns for a combined tuple `segs` when `vlen` segments of it belong to the virtual root -/
 theorem walk_outcome (root : Tree) (segs vrt sub0 : List Seg) (vlen : Nat) :
